@@ -11,18 +11,21 @@ import (
 // the current sources on every run (name-agnostic where possible). A theorem is stated about the variant the sources
 // show, so that a change of the decision breaks the proof obligation.
 //
-//   src_active_before_arm     activity.go harness.run: the store that opens the harness for events (atomic store to a
-//                             field named active) comes before the call that arms the boundary events (x.arm(...))
-//   src_termchan_capacity     gateway_event_based.go eventBasedGateway.run: smallest capacity of the chan bool
-//                             channels made there (0 = unbuffered)
-//   src_termchan_table_kept   ... no map-typed local of run is assigned as a whole inside a function literal
-//                             (the table of termination channels is not replaced once the action is handed out)
-//   src_determination_is_cas  ... the action transformer's decision is one atomic CompareAndSwap
+//	src_active_before_arm     activity.go harness.run: the store that opens the harness for events (atomic store to a
+//	                          field named active) comes before the call that arms the boundary events (x.arm(...))
+//	src_termchan_capacity     gateway_event_based.go eventBasedGateway.run: smallest capacity of the chan bool
+//	                          channels made there (0 = unbuffered)
+//	src_termchan_table_kept   ... no map-typed local of run is assigned as a whole inside a function literal
+//	                          (the table of termination channels is not replaced once the action is handed out)
+//	src_determination_is_cas  ... the action transformer's decision is one atomic CompareAndSwap
+//	src_subprocess_registers  subprocess.go newSubProcess: the sub-process registers as an event consumer (a call of
+//	                          RegisterEventConsumer) while it is built
 type protoFacts struct {
-	ActiveBeforeArm    bool
-	TermChanCapacity   int
-	TermChanTableKept  bool
-	DeterminationIsCAS bool
+	SubProcessRegisters bool
+	ActiveBeforeArm     bool
+	TermChanCapacity    int
+	TermChanTableKept   bool
+	DeterminationIsCAS  bool
 }
 
 func findMethod(f *ast.File, recv, name string) *ast.FuncDecl {
@@ -80,6 +83,28 @@ func protocolFacts(c *factsCtx) (pf protoFacts) {
 			c.fail("protocol facts: harness.run: the store to .active (%v) or the call of arm (%v) was not found", storePos != token.NoPos, armPos != token.NoPos)
 		}
 		pf.ActiveBeforeArm = storePos != token.NoPos && armPos != token.NoPos && storePos < armPos
+	}
+	// --- subprocess.go
+	if f := c.parse("subprocess.go"); f != nil {
+		found := false
+		for _, d := range f.Decls {
+			fd, ok := d.(*ast.FuncDecl)
+			if !ok || fd.Name.Name != "newSubProcess" || fd.Body == nil {
+				continue
+			}
+			found = true
+			ast.Inspect(fd.Body, func(n ast.Node) bool {
+				if call, ok := n.(*ast.CallExpr); ok {
+					if se, ok := call.Fun.(*ast.SelectorExpr); ok && se.Sel.Name == "RegisterEventConsumer" {
+						pf.SubProcessRegisters = true
+					}
+				}
+				return true
+			})
+		}
+		if !found {
+			c.fail("protocol facts: newSubProcess not found in subprocess.go")
+		}
 	}
 	// --- gateway_event_based.go
 	if run := findMethod(c.parse("gateway_event_based.go"), "eventBasedGateway", "run"); run == nil {
@@ -162,8 +187,8 @@ func protocolFacts(c *factsCtx) (pf protoFacts) {
 func init() {
 	factGens = append(factGens, func(c *factsCtx) {
 		pf := protocolFacts(c)
-		fmt.Fprintf(&c.out, "(* protocol facts read off the sources (harness/protocol.go) *)\nDefinition src_active_before_arm : bool := %v.\nDefinition src_termchan_capacity : nat := %d.\nDefinition src_termchan_table_kept : bool := %v.\nDefinition src_determination_is_cas : bool := %v.\n\n",
-			pf.ActiveBeforeArm, pf.TermChanCapacity, pf.TermChanTableKept, pf.DeterminationIsCAS)
+		fmt.Fprintf(&c.out, "(* protocol facts read off the sources (harness/protocol.go) *)\nDefinition src_active_before_arm : bool := %v.\nDefinition src_termchan_capacity : nat := %d.\nDefinition src_termchan_table_kept : bool := %v.\nDefinition src_determination_is_cas : bool := %v.\nDefinition src_subprocess_registers : bool := %v.\n\n",
+			pf.ActiveBeforeArm, pf.TermChanCapacity, pf.TermChanTableKept, pf.DeterminationIsCAS, pf.SubProcessRegisters)
 	})
 	commands["protocol"] = func(env *Env) {
 		c := &factsCtx{repo: env.Repo, fset: token.NewFileSet()}
